@@ -101,6 +101,17 @@ type limNode struct {
 	Next *limNode `json:"n,omitempty"`
 }
 
+type limNode2 struct {
+	N *limNode2 `json:"n"`
+	V int       `json:"v"`
+	W int       `json:"w"`
+}
+type limTree struct {
+	C []limTree `json:"c"`
+	V int       `json:"v"`
+	W int       `json:"w"`
+}
+
 type limVisitor struct{ n int }
 
 func (v *limVisitor) OnNull() error                        { v.n++; return nil }
@@ -187,13 +198,50 @@ func limRun(c *limCase) (outcome, detail string, err error, inLen int) {
 		inLen = len(full)
 		err = sonic.UnmarshalString(full, &v)
 	case "unmarshal_typed":
-		var v limNode
-		d := strings.Repeat(`{"n":`, c.Depth) + "null"
-		if c.Closed {
-			d += strings.Repeat("}", c.Depth)
+		var d string
+		switch c.Shape {
+		case "objskip", "objbad":
+			// depth objects; the innermost one has a value to skip (unknown key / wrong type) and then two known fields
+			inner := `{"zz":[1,{"q":2}],"v":1,"w":2}`
+			if c.Shape == "objbad" {
+				inner = `{"v":"not a number","w":2,"v":3}`
+			}
+			n := c.Depth - 1
+			if n < 0 {
+				n = 0
+			}
+			d = strings.Repeat(`{"n":`, n) + inner
+			if c.Closed {
+				d += strings.Repeat("}", n)
+			} else {
+				d = d[:len(d)-1]
+			}
+			var v limNode2
+			inLen = len(d)
+			err = sonic.UnmarshalString(d, &v)
+		case "tree":
+			n := c.Depth - 1
+			if n < 0 {
+				n = 0
+			}
+			d = strings.Repeat(`{"c":[`, n) + `{"zz":0,"v":1,"w":2}`
+			if c.Closed {
+				d += strings.Repeat("]}", n)
+			} else {
+				d = d[:len(d)-1]
+			}
+			var v limTree
+			inLen = len(d)
+			err = sonic.UnmarshalString(d, &v)
+		default:
+			var v limNode
+			d = strings.Repeat(`{"n":`, c.Depth) + "null"
+			if c.Closed {
+				d += strings.Repeat("}", c.Depth)
+			}
+			inLen = len(d)
+			err = sonic.UnmarshalString(d, &v)
 		}
-		inLen = len(d)
-		err = sonic.UnmarshalString(d, &v)
 	case "valid":
 		if !sonic.ValidString(doc) {
 			err = fmt.Errorf("invalid")
